@@ -12,8 +12,8 @@
 -/
 import Driver.OpsC13
 import FcModel.Truncation
-namespace Fc.Drv.C18x
-open Fc.W Fc.Drv Fc.Drv.C13x
+namespace Fc.Drv.C18
+open Fc.W Fc.Drv Fc.Drv.C13
 
 def pEnc : P Enc := do
   let t ← tok
@@ -100,11 +100,6 @@ def opC18Run : P String := do
   | .ok n => pure s!"exit={n}"
   | .error _ => pure "exit=raises"
 
-end Fc.Drv.C18x
-
-namespace Fc.Drv
-open Fc.Drv.C18x
-
 def handleC18 (op : String) : Option (P String) :=
   match op with
   | "c18fb" => some opC18Fb
@@ -113,4 +108,6 @@ def handleC18 (op : String) : Option (P String) :=
   | "c18run" => some opC18Run
   | _ => none
 
-end Fc.Drv
+end Fc.Drv.C18
+
+def Fc.Drv.handleC18 := Fc.Drv.C18.handleC18
